@@ -740,7 +740,7 @@ func genC16(rng *rand.Rand, tier string) (cases []string) {
 		}
 	}
 
-	n := 3000
+	n := 8000
 	if tier == "thorough" {
 		n = 500000
 	}
